@@ -189,6 +189,9 @@ func (socksComp) Exec(op string) (string, string, string, bool) {
 	time.Sleep(100 * time.Millisecond)
 	g1 := quiesce()
 	grow := int(float64(g1-g0)/float64(n) + 0.5)
+	if grow < 0 {
+		grow = 0 // goroutines of an earlier scenario that were still ending when the baseline was taken
+	}
 	mon := ""
 	if grow > 0 {
 		mon = fmt.Sprintf("goroutines grow with the number of finished connections through the SOCKS channel: %d -> %d over %d connections", g0, g1, n)
